@@ -44,6 +44,9 @@ namespace rkcommon {
     struct Observer
     {
       Observer(Observable &observee);
+      // a copy observes the same observable and is registered with it
+      Observer(const Observer &other);
+      Observer &operator=(const Observer &other);
       ~Observer();
 
       bool wasNotified();
@@ -86,6 +89,24 @@ namespace rkcommon {
     inline Observer::Observer(Observable &_observee) : observee(&_observee)
     {
       observee->registerObserver(*this);
+    }
+
+    inline Observer::Observer(const Observer &other)
+        : lastObserved(other.lastObserved), observee(other.observee)
+    {
+      if (observee)
+        observee->registerObserver(*this);
+    }
+
+    inline Observer &Observer::operator=(const Observer &other)
+    {
+      if (observee)
+        observee->removeObserver(*this);
+      lastObserved = other.lastObserved;
+      observee = other.observee;
+      if (observee)
+        observee->registerObserver(*this);
+      return *this;
     }
 
     inline Observer::~Observer()
